@@ -300,8 +300,11 @@ func subCode(o common.Outcome) int {
 // typeAgreeKnown: disagreements of typep and subtypep covered by known findings: the object's type-of does
 // not name a registered class (list, cons, null), or the type asked about is t, which is not a class either.
 func typeAgreeKnown(kind, tof, ty string) bool {
-	if slip.FindClass(tof) == nil {
-		return true // C16-list-cons-null-are-not-classes
+	switch tof {
+	case "list", "cons", "null", "t":
+		if slip.FindClass(tof) == nil {
+			return true // C16-list-cons-null-are-not-classes (and t: C16-t-is-not-a-class)
+		}
 	}
 	if strings.EqualFold(ty, "t") && slip.FindClass("t") == nil {
 		return true // C16-t-is-not-a-class
